@@ -51,6 +51,12 @@ func execC14(t *testing.T, p Plan, src kernel.Source) Result {
 		w.TimerBudget = budget
 		e.next = make([]int, len(e.conns))
 		e.cur = make([]*HistOp, len(e.conns))
+		e.ghost = map[int]bool{}
+		for _, gi := range p.XV {
+			for _, ci := range gi {
+				e.ghost[int(ci)] = true
+			}
+		}
 		w.SegMode = p.Seg
 		w.KeepWaiting = nil
 		ok, why := e.run()
@@ -77,6 +83,9 @@ func execC14(t *testing.T, p Plan, src kernel.Source) Result {
 			perConn[h.Conn] = append(perConn[h.Conn], h)
 		}
 		for ci, hs := range perConn {
+			if e.ghost[ci] {
+				continue // a ghost never reads its replies
+			}
 			ref := model.NewStore(w.Now)
 			proto := p.Conns[ci].Proto
 			for _, h := range hs {
@@ -164,6 +173,23 @@ func genC14(seed uint64, tier string) Plan {
 		}
 		p.Progs = append(p.Progs, prog)
 	}
+	// in a third of the runs one or two connections are ghosts: they pipeline everything
+	// (preferably commands that fail) and disconnect without reading a single reply
+	if g.p(1, 3) && nconn >= 3 {
+		var ghosts []uint64
+		for k := 0; k < 1+g.n(2); k++ {
+			gi := g.n(nconn)
+			ghosts = append(ghosts, uint64(gi))
+			if p.Conns[gi].Proto == "bin" {
+				// make sure error replies are owed: misses and failing stores on keys nobody wrote
+				p.Progs[gi] = append(p.Progs[gi],
+					wire.Op{Kind: "get", Keys: []string{fmt.Sprintf("c%d-never", gi)}, Quiets: []bool{false}, Opaque: 77000 + uint32(gi)},
+					wire.Op{Kind: "replace", Key: fmt.Sprintf("c%d-never", gi), Data: []byte("x"), Opaque: 78000 + uint32(gi)},
+					wire.Op{Kind: "delete", Key: fmt.Sprintf("c%d-never", gi), Opaque: 79000 + uint32(gi)})
+			}
+		}
+		p.XV = [][]uint64{ghosts}
+	}
 	return p
 }
 
@@ -171,7 +197,7 @@ func init() {
 	register(&Prop{
 		ID: "C14", Gen: genC14, Exec: execC14,
 		Nontrivial: func(p Plan, r Result) bool { return len(p.Conns) >= 2 },
-		Rule:       "2-64 connections (main and batch port, text and binary), each running a closed-loop random command sequence incl. failing commands (error replies with bodies) on its own private keys, on every orchestrator (L1-only, L1/L2, batch port; with and without the shared lock set) x L1 handler {direct, chunked, batched pool} x L2 handler {direct, batched pool}. The kernel chooses among client sends, lock grants, individual backend requests and reply segments (uniform or depth-first-sticky); clock ticks drive the pool's batch delay. Every sync.Pool of rend runs in poison mode: an object is overwritten with 0xA5 when it is returned, so a header or buffer touched after Put yields a wrong length or status on the spot, and a double Put is reported. Oracle: each connection's replies equal the reference map's for its own sequence alone, no hang, no pool misuse. The literal data-race clause (Go memory model) is outside what a serialising simulator can see; it is not claimed by this check. Non-trivial = at least two connections; distinct = distinct plan hash",
+		Rule:       "2-64 connections (main and batch port, text and binary), each running a closed-loop random command sequence incl. failing commands (error replies with bodies) on its own private keys, on every orchestrator (L1-only, L1/L2, batch port; with and without the shared lock set) x L1 handler {direct, chunked, batched pool} x L2 handler {direct, batched pool}. The kernel chooses among client sends, lock grants, individual backend requests and reply segments (uniform or depth-first-sticky); clock ticks drive the pool's batch delay. Every sync.Pool of rend runs in poison mode: an object is overwritten with 0xA5 when it is returned, so a header or buffer touched after Put yields a wrong length or status on the spot, and a double Put is reported. In a third of the runs one or two connections are ghosts: they pipeline all their requests (ending with commands that fail) and disconnect without reading, in EPIPE or silent write mode. Oracle: each (non-ghost) connection's replies equal the reference map's for its own sequence alone, no hang, no pool misuse. The literal data-race clause (Go memory model) is outside what a serialising simulator can see; it is not claimed by this check. Non-trivial = at least two connections; distinct = distinct plan hash",
 		Real:       append(append([]string{}, realFullStack...), "handlers/memcached/chunked", "handlers/memcached/batched", "protocol/binprot pools (in poison mode)"),
 		Stub:       append(append([]string{}, stubFullStack...), "sync.Pool: deterministic LIFO free list that poisons on Put"),
 		RaceTest:   "TestRaceServer",
